@@ -1,6 +1,7 @@
 package vc
 
 import (
+	"math/big"
 	"strconv"
 	"fmt"
 	"go/types"
@@ -565,6 +566,12 @@ func (vc *VC) evalSpecBin(env *Env, x *SBin) Val {
 	case "%":
 		return Val{T: App("mod", l.T, r.T), Typ: l.Typ}
 	case "&":
+		// like the code side: x & (2^k - 1) is x mod 2^k
+		if lit, ok := x.R.(*SInt); ok {
+			if n, err := strconv.ParseInt(lit.V, 10, 64); err == nil && n >= 0 && isMask(n) {
+				return Val{T: App("mod", l.T, BigLit(big.NewInt(n+1))), Typ: l.Typ}
+			}
+		}
 		return Val{T: App("bvand_", l.T, r.T), Typ: l.Typ}
 	case "|":
 		return Val{T: App("bvor_", l.T, r.T), Typ: l.Typ}
